@@ -229,7 +229,7 @@ Arguments ltb {A}. Arguments min_of {A}. Arguments max_of {A}. Arguments bump {A
 Arguments insert_desc {A}. Arguments sort_desc {A}. Arguments most_common {A}. Arguments distinct {A}.
 Arguments kmv_of {A}. Arguments ot_step {A}. Arguments order_transitions {A}. Arguments profile_core {A}.
 Arguments profile_ord {A}. Arguments add_mfv {A}. Arguments add {A}. Arguments estimate_cardinality {A E}.
-Arguments profile_frame {A}.
+Arguments profile_frame {A} eqb E hist_merge {X} prof c.
 
 (* ---------- numbers ---------- *)
 (* int(x) of the fixed-point number z / scale: truncation toward zero *)
@@ -374,19 +374,20 @@ Record obs (V : Type) := mko {
 }.
 Arguments mko {V}. Arguments o_whole {V}. Arguments o_cut {V}. Arguments o_quads {V}. Arguments o_estimate {V}.
 
-Definition check_common {X V} (ev : V -> V -> bool) (prof : list X -> profile V N)
+Definition check_common {X V} (ev : V -> V -> bool) (big : bool) (prof : list X -> profile V N)
            (addf : profile V N -> profile V N -> profile V N)
            (frame : list X -> option (profile V N)) (c : list X) (o : obs V) : bool :=
   match frame c with
   | None => false
   | Some w =>
-      profile_eqb ev w (o_whole o) &&
+      (* a frame above the batch size is a sum of batch profiles: its histogram is the distogram's *)
+      (if big then sum_eqb ev w (o_whole o) else profile_eqb ev w (o_whole o)) &&
       match estimate_cardinality w with Some e => e =? o_estimate o | None => true end &&
       match o_cut o with
       | None => true
       | Some (k, s) => sum_eqb ev (addf (prof (firstn k c)) (prof (skipn k c))) s
       end &&
-      list_eqb quad_eqb (cut_quads prof addf c) (o_quads o)
+      (if big then true else list_eqb quad_eqb (cut_quads prof addf c) (o_quads o))
   end.
 
 Definition hist_ok {X} (sample : list X) (h : list (N * Z)) : bool :=
@@ -398,23 +399,27 @@ Definition ord_case : Type :=
 
 Definition ord_parts (k : ord_case) :=
   let '(with_order, scale, c0, rep, hashes, hists, o) := k in
+  let big := negb (Nat.eqb rep 1) in
   let c := expand rep c0 in
   let hash := fun v => assoc Z.eqb v hashes 0%N in
-  let np_hist := fun d => assoc (list_eqb Z.eqb) d hists [] in
+  (* frames above the batch size: the per-batch histograms matter only through being empty or
+     not (the merged histogram is not compared), so one bin with the whole mass stands in *)
+  let np_hist := fun d => if big then match d with [] => [] | _ => [(0%N, zlen d)] end
+                          else assoc (list_eqb Z.eqb) d hists [] in
   let prof := profile_num scale hash np_hist with_order in
   let addf := add Z.eqb N dummy_merge in
-  (c, prof, addf, np_hist, o).
+  (big, c, prof, addf, np_hist, o).
 
 Definition c15_check_ord (k : ord_case) : bool :=
-  let '(c, prof, addf, np_hist, o) := ord_parts k in
-  hist_ok (nonnull c) (np_hist (nonnull c)) &&
-  check_common Z.eqb prof addf (profile_frame Z.eqb N dummy_merge prof) c o.
+  let '(big, c, prof, addf, np_hist, o) := ord_parts k in
+  (if big then true else hist_ok (nonnull c) (np_hist (nonnull c))) &&
+  check_common Z.eqb big prof addf (profile_frame Z.eqb N dummy_merge prof) c o.
 
 Definition c15_show_ord (k : ord_case) :=
-  let '(c, prof, addf, np_hist, o) := ord_parts k in
+  let '(big, c, prof, addf, np_hist, o) := ord_parts k in
   (profile_frame Z.eqb N dummy_merge prof c,
    match o_cut o with Some (n, _) => Some (addf (prof (firstn n c)) (prof (skipn n c))) | None => None end,
-   cut_quads prof addf c).
+   if big then [] else cut_quads prof addf c).
 
 (* text *)
 Definition text_case : Type :=
@@ -426,17 +431,17 @@ Definition text_parts (k : text_case) :=
   let hash := fun v => assoc text_eqb v hashes 0%N in
   let prof := @profile_text N hash in
   let addf := add text_eqb N dummy_merge in
-  (c, prof, addf, o).
+  (negb (Nat.eqb rep 1), c, prof, addf, o).
 
 Definition c15_check_text (k : text_case) : bool :=
-  let '(c, prof, addf, o) := text_parts k in
-  check_common text_eqb prof addf (profile_frame text_eqb N dummy_merge prof) c o.
+  let '(big, c, prof, addf, o) := text_parts k in
+  check_common text_eqb big prof addf (profile_frame text_eqb N dummy_merge prof) c o.
 
 Definition c15_show_text (k : text_case) :=
-  let '(c, prof, addf, o) := text_parts k in
+  let '(big, c, prof, addf, o) := text_parts k in
   (profile_frame text_eqb N dummy_merge prof c,
    match o_cut o with Some (n, _) => Some (addf (prof (firstn n c)) (prof (skipn n c))) | None => None end,
-   cut_quads prof addf c).
+   if big then [] else cut_quads prof addf c).
 
 (* booleans *)
 Definition bool_case : Type := list (option bool) * nat * obs bool.
@@ -444,12 +449,12 @@ Definition c15_check_bool (k : bool_case) : bool :=
   let '(c0, rep, o) := k in
   let c := expand rep c0 in
   let addf := add Bool.eqb N dummy_merge in
-  check_common Bool.eqb (@profile_bool N) addf (profile_frame Bool.eqb N dummy_merge (@profile_bool N)) c o.
+  check_common Bool.eqb (negb (Nat.eqb rep 1)) (@profile_bool N) addf (profile_frame Bool.eqb N dummy_merge (@profile_bool N)) c o.
 Definition c15_show_bool (k : bool_case) :=
   let '(c0, rep, o) := k in
   let c := expand rep c0 in
   (profile_frame Bool.eqb N dummy_merge (@profile_bool N) c,
-   cut_quads (@profile_bool N) (add Bool.eqb N dummy_merge) c).
+   if Nat.eqb rep 1 then cut_quads (@profile_bool N) (add Bool.eqb N dummy_merge) c else []).
 
 (* ARRAY / STRUCT (cells null or not) and untyped columns (cells None / NaN / a value);
    the listed values are of no type: unit *)
@@ -462,10 +467,10 @@ Definition c15_check_plain (k : plain_case) : bool :=
   let '(untyped, c0, rep, o) := k in
   let c := expand rep c0 in
   let addf := add unit_eqb N dummy_merge in
-  check_common unit_eqb (plain_prof untyped) addf
+  check_common unit_eqb (negb (Nat.eqb rep 1)) (plain_prof untyped) addf
                (profile_frame unit_eqb N dummy_merge (plain_prof untyped)) c o.
 Definition c15_show_plain (k : plain_case) :=
   let '(untyped, c0, rep, o) := k in
   let c := expand rep c0 in
   (profile_frame unit_eqb N dummy_merge (plain_prof untyped) c,
-   cut_quads (plain_prof untyped) (add unit_eqb N dummy_merge) c).
+   if Nat.eqb rep 1 then cut_quads (plain_prof untyped) (add unit_eqb N dummy_merge) c else []).
